@@ -511,8 +511,15 @@ impl<'a> G<'a> {
             } else {
                 11 + self.r.below(4)
             };
+            let rows = long < 100 && self.r.chance(30);
             for _ in 0..long {
-                let v = self.leaf();
+                // sometimes rows of small objects (paths through two-digit indices: a[10].x vs a[1].x)
+                let v = if rows {
+                    let (l1, l2) = (self.leaf(), self.leaf());
+                    json!({"x": l1, "y": l2})
+                } else {
+                    self.leaf()
+                };
                 out.push(v);
             }
             self.budget -= 4;
@@ -1129,6 +1136,10 @@ pub fn gen_arbitrary_selection(r: &mut Rng, u: &Value, depth: u32) -> Value {
                 if r.chance(25) {
                     let k = (*r.pick(&["zz", "nope", "_sd", "...", ""])).to_string();
                     o.insert(k, any(r, d, names));
+                }
+                if r.chance(6) {
+                    // the digest list itself addressed like an array claim
+                    o.insert("_sd".into(), Value::Array((0..1 + r.below(4)).map(|_| Value::Bool(true)).collect()));
                 }
                 Value::Object(o)
             }
